@@ -106,6 +106,7 @@ def gen_engine(
     share_defuzzifier=False,
     routes=False,
     reversed_bounds=False,
+    broken_rules=False,
 ):
     nin, nout, nrb = rnd.randint(1, max_inputs), rnd.randint(1, 2), rnd.randint(1, 2)
     off = (lambda p: rnd.random() < p) if flags else (lambda p: False)
@@ -163,12 +164,23 @@ def gen_engine(
             w = gen_weight(rnd, d, free=free_weights)
             text = "if " + tree_text(rnd, tree, redundant=rnd.choice([0, 0, 0.3]), tight=rnd.choice([0, 0.5])) + " then " + " and ".join(prop_text(c) for c in concl) + weight_text(w, d)
             rb["rules"].append(dict(text=text, tree=tree, concl=concl, weight=w, enabled=not off(0.1)))
+        if broken_rules and rnd.random() < 0.25:
+            # a rule the engine cannot load: it starts like a good rule (antecedent and first conclusion are fine) and goes wrong
+            # later; its load is rejected, it stays unloaded and takes no part in anything
+            tree = gen_tree(rnd, list(spec["inputs"]), rnd.randint(0, 1))
+            good = prop_text(gen_prop(rnd, rnd.choice(spec["outputs"]), max_hedges=1, allow_any=False))
+            o = rnd.choice(spec["outputs"])
+            tail = rnd.choice([" and nosuchvariable is x", f" and {o['name']} is nosuchterm", f" and {o['name']} is", f" and {o['name']} very", " and", f" and {spec['inputs'][0]['name']} is {spec['inputs'][0]['terms'][0]['name']}"])
+            text = "if " + tree_text(rnd, tree) + " then " + good + tail
+            rb["rules"].insert(rnd.randint(0, len(rb["rules"])), dict(text=text, tree=tree, concl=[], weight=1.0, enabled=True, broken=True))
         spec["blocks"].append(rb)
     if share_defuzzifier and rnd.random() < 0.5:
         # one Automatic weighted defuzzifier object for all the weighted output variables (what Engine.configure does)
         spec["shared_defuzzifier"] = rnd.choice(["WeightedAverage", "WeightedSum"])
     if routes:
         spec["route"] = rnd.choice(ROUTES)
+        if spec["route"] in ("fll", "python", "rule-create-with-engine") and any(r.get("broken") for rb in spec["blocks"] for r in rb["rules"]):
+            spec["route"] = "constructors"  # the text forms and Rule.create(text, engine) refuse the rule outright
         if spec["route"] == "engine-configure" and not uniform(rnd, spec):
             spec["route"] = "constructors"
     if descriptions:
@@ -247,11 +259,33 @@ def build(fl, spec, route=None):
         e = _restore_flags(spec, e2)
     elif route == "copy":
         e = e.copy()
-        e.restart()
+        _quietly(e.restart, spec)
     elif route == "deepcopy":
         e = copy.deepcopy(e)
-        e.restart()
+        _quietly(e.restart, spec)
     return e
+
+
+def rejected_rules(spec):
+    """(block index, rule index) of the rules of the spec that cannot be loaded"""
+    return {(bi, ri) for bi, rb in enumerate(spec["blocks"]) for ri, r in enumerate(rb["rules"]) if r.get("broken")}
+
+
+def _quietly(load, spec):
+    """run a (re)loading step; the RuntimeError that reports the spec's unloadable rules is expected"""
+    try:
+        load()
+    except RuntimeError:
+        if not rejected_rules(spec):
+            raise
+
+
+def _set_weight(rule, w, d):
+    """the weight the spec asks for is put on the rule object where the rule text cannot carry it exactly (it is written with
+    d decimals; 1.0 stands for anything the library's tolerance takes for 1); a weight the text does carry is left as the
+    parser read it, so that a misread weight stays visible to whoever compares with the spec"""
+    if rule.weight != w and (abs(rule.weight - w) <= 0.5 * 10.0**-d * (1 + 1e-9) or (rule.weight == 1.0 and abs(w - 1.0) <= 1.5e-3)):
+        rule.weight = w
 
 
 def _restore_flags(spec, e):
@@ -259,7 +293,7 @@ def _restore_flags(spec, e):
     for rb, rbs in zip(e.rule_blocks, spec["blocks"]):
         for r, rs in zip(rb.rules, rbs["rules"]):
             r.enabled = rs["enabled"]
-            r.weight = rs["weight"]
+            _set_weight(r, rs["weight"], spec["decimals"])
     return e
 
 
@@ -290,7 +324,7 @@ def _build(fl, spec, route):
         rules = []
         for r in rb["rules"]:
             rule = fl.Rule.create(r["text"], e) if route == "rule-create-with-engine" else fl.Rule.create(r["text"])
-            rule.weight = r["weight"]  # set on the object too: the spec, not the parser, is the ground truth
+            _set_weight(rule, r["weight"], spec["decimals"])
             rule.enabled = r["enabled"]
             rules.append(rule)
         a = rb["activation"]
@@ -304,7 +338,7 @@ def _build(fl, spec, route):
         for t in v.terms:
             t.update_reference(e)
     for rb in e.rule_blocks:
-        rb.load_rules(e)
+        _quietly(lambda rb=rb: rb.load_rules(e), spec)
     if route == "engine-configure" and spec.get("configure_by"):
         by = spec["configure_by"]
         # (a caller may have removed operators from single components: take each from the first component that has it)
